@@ -6,7 +6,9 @@
 // "-" = empty; times are unix seconds):
 //
 //	pn <ref> <size> <key>                              planned permanode <key>
-//	cl <ref> <size> <pnref> set|add|del <attr> <val> <date>   attribute claim
+//	cl <ref> <size> <pnref> set|add|del <attr> <val> <date> own|other   attribute claim signed by the
+//	    owner of the search handler or by a second identity; the date may be older than
+//	    dates used before (arrival order ≠ date order) unless <val> is a blobref
 //	del <ref> <size> <pnref> <date>                    delete claim on a permanode
 //	bytes <ref> <size> <content>                       plain blob
 //	file <ref> <size> <name> <wholeref> <mtime> <mime> file schema blob with one part (= wholeref); <mime> declares the MIME type the index sniffs
@@ -17,7 +19,8 @@
 //	ctime <pnref> <t|none>                             declares Corpus.PermanodeTime(pn) for the model;
 //	    the implementation answers "ok" iff the corpus agrees
 //	times                                              "<any|none>/<mod|none>" for every permanode, in upload order
-//	pv <pnref> <attr>                                  current values of the attribute (hex, comma separated)
+//	pv <pnref> <attr>                                  current values of the attribute (hex, comma separated) as the
+//	    owner signed them " / " as all signers did
 //	q <sort> <limit> <constraint words…>               Handler.Query; sort ∈ unspec unsorted -mod mod -created created blobref map
 //	    answer: "invalid" | "err" | "ok <candidate source> <canonical result>"
 package c08
@@ -25,6 +28,8 @@ package c08
 import (
 	"context"
 	"fmt"
+	"os"
+	"path/filepath"
 	"sort"
 	"strconv"
 	"strings"
@@ -33,6 +38,7 @@ import (
 	"perkeep.org/pkg/blob"
 	"perkeep.org/pkg/index"
 	"perkeep.org/pkg/index/indextest"
+	"perkeep.org/pkg/jsonsign"
 	"perkeep.org/pkg/schema"
 	"perkeep.org/pkg/search"
 	"perkeep.org/pkg/test"
@@ -61,10 +67,12 @@ type world struct {
 	size     map[string]int
 	pns      []string
 	lastDate int64
-	pnLast   map[string]int64
+	pnDates  map[string]map[int64]bool // the claim dates of each permanode
 	deleted  map[string]bool
 	lastSrc  string
 	lastErr  string
+
+	otherKnown bool // the second signer's public key has been given to the key fetcher
 }
 
 func newWorld() *world {
@@ -80,14 +88,14 @@ func newWorld() *world {
 	h := search.NewHandler(idx, owner)
 	h.SetCorpus(corpus)
 	return &world{idx: idx, corpus: corpus, id: id, h: h, known: map[string]string{}, size: map[string]int{},
-		pnLast: map[string]int64{}, deleted: map[string]bool{}}
+		pnDates: map[string]map[int64]bool{}, deleted: map[string]bool{}}
 }
 
 // ---- deterministic blob builders (shared with the generator) ----
 
 func (w *world) bPN(key string) *test.Blob { return w.id.Sign(schema.NewPlannedPermanode(key)) }
 
-func (w *world) bClaim(pn blob.Ref, kind, attr, val string, date int64) *test.Blob {
+func (w *world) bClaim(pn blob.Ref, kind, attr, val string, date int64, other bool) *test.Blob {
 	var b *schema.Builder
 	switch kind {
 	case "set":
@@ -98,7 +106,71 @@ func (w *world) bClaim(pn blob.Ref, kind, attr, val string, date int64) *test.Bl
 		b = schema.NewDelAttributeClaim(pn, attr, val)
 	}
 	b.SetClaimDate(time.Unix(date, 0).UTC())
+	if other {
+		return w.signOther(b)
+	}
 	return w.id.Sign(b)
+}
+
+// the second identity: the key of pkg/jsonsign/testdata/test-secring2.gpg. Its claims are indexed
+// like the owner's, but the search handler evaluates attribute values as its owner signed them.
+type otherSigner struct {
+	pub *test.Blob
+	ef  jsonsign.EntityFetcher
+}
+
+var other2 *otherSigner
+
+func loadOther() *otherSigner {
+	if other2 != nil {
+		return other2
+	}
+	file := filepath.Join("/repo", "pkg", "jsonsign", "testdata", "test-secring2.gpg")
+	if wd, err := filepath.Abs("."); err == nil {
+		if f := filepath.Join(wd, "pkg", "jsonsign", "testdata", "test-secring2.gpg"); fileExists(f) {
+			file = f
+		}
+	}
+	keyID, err := jsonsign.KeyIdFromRing(file)
+	if err != nil {
+		panic(err)
+	}
+	ent, err := jsonsign.EntityFromSecring(keyID, file)
+	if err != nil {
+		panic(err)
+	}
+	arm, err := jsonsign.ArmoredPublicKey(ent)
+	if err != nil {
+		panic(err)
+	}
+	other2 = &otherSigner{pub: &test.Blob{Contents: arm},
+		ef: &jsonsign.CachingEntityFetcher{Fetcher: &jsonsign.FileEntityFetcher{File: file}}}
+	return other2
+}
+
+func fileExists(p string) bool {
+	_, err := os.Stat(p)
+	return err == nil
+}
+
+func (w *world) signOther(b *schema.Builder) *test.Blob {
+	o := loadOther()
+	if !w.otherKnown {
+		w.id.PublicKeyFetcher.AddBlob(o.pub)
+		w.otherKnown = true
+	}
+	b.SetSigner(o.pub.BlobRef())
+	unsigned, err := b.JSON()
+	if err != nil {
+		panic(err)
+	}
+	sr := &jsonsign.SignRequest{UnsignedJSON: unsigned, Fetcher: w.id.PublicKeyFetcher, EntityFetcher: o.ef,
+		SignatureTime: test.ClockOrigin}
+	signed, err := sr.Sign(ctxbg)
+	if err != nil {
+		panic(err)
+	}
+	return &test.Blob{Contents: signed}
 }
 
 func (w *world) bDelete(target blob.Ref, date int64) *test.Blob {
@@ -193,12 +265,25 @@ func (w *world) add(tb *test.Blob, ref string, size int, kind string) bool {
 	return true
 }
 
-func (w *world) dateOK(s string, pn string) (int64, bool) {
+// dateOK: a claim date is positive, before the cutoff and different from the date of every claim the
+// permanode already has (the date order of its claims is then determined); unless mayBeLate it is
+// not before the latest date used so far.
+func (w *world) dateOK(s string, pn string, mayBeLate bool) (int64, bool) {
 	d, ok := natArg(s)
-	if !ok || d == 0 || d >= DateCutoff || d < w.lastDate || (pn != "" && d <= w.pnLast[pn]) {
+	if !ok || d == 0 || d >= DateCutoff || (!mayBeLate && d < w.lastDate) || w.pnDates[pn][d] {
 		return 0, false
 	}
 	return d, true
+}
+
+func (w *world) noteDate(pn string, d int64) {
+	if w.pnDates[pn] == nil {
+		w.pnDates[pn] = map[int64]bool{}
+	}
+	w.pnDates[pn][d] = true
+	if d > w.lastDate {
+		w.lastDate = d
+	}
 }
 
 func showT(t time.Time, ok bool) string {
@@ -224,7 +309,7 @@ func (w *world) exec(words []string) string {
 		w.pns = append(w.pns, words[1])
 		return "ok"
 	case "cl":
-		if len(words) != 8 {
+		if len(words) != 9 || (words[8] != "own" && words[8] != "other") {
 			return "bad-op"
 		}
 		size, ok := w.fresh(words[1], words[2])
@@ -239,14 +324,17 @@ func (w *world) exec(words []string) string {
 		default:
 			return "bad-op"
 		}
-		d, ok := w.dateOK(words[7], pn)
+		// a claim dated before the latest date so far must not name a blob (Corpus.claimBack keeps
+		// arrival order; the model keeps one claim list in date order)
+		_, isRef := blob.Parse(string(val))
+		d, ok := w.dateOK(words[7], pn, !isRef)
 		if !ok {
 			return "bad-op"
 		}
-		if !w.add(w.bClaim(blob.MustParse(pn), words[4], string(attr), string(val), d), words[1], size, "claim") {
+		if !w.add(w.bClaim(blob.MustParse(pn), words[4], string(attr), string(val), d, words[8] == "other"), words[1], size, "claim") {
 			return "refmismatch"
 		}
-		w.lastDate, w.pnLast[pn] = d, d
+		w.noteDate(pn, d)
 		return "ok"
 	case "del":
 		if len(words) != 5 {
@@ -257,14 +345,14 @@ func (w *world) exec(words []string) string {
 		if !ok || w.known[pn] != "pn" || w.deleted[pn] {
 			return "bad-op"
 		}
-		d, ok := w.dateOK(words[4], "")
+		d, ok := w.dateOK(words[4], pn, false)
 		if !ok {
 			return "bad-op"
 		}
 		if !w.add(w.bDelete(blob.MustParse(pn), d), words[1], size, "claim") {
 			return "refmismatch"
 		}
-		w.lastDate = d
+		w.noteDate(pn, d)
 		w.deleted[pn] = true
 		return "ok"
 	case "bytes":
@@ -381,15 +469,18 @@ func (w *world) exec(words []string) string {
 		}
 		w.idx.RLock()
 		defer w.idx.RUnlock()
-		vals := w.corpus.AppendPermanodeAttrValues(nil, blob.MustParse(words[1]), string(attr), time.Time{}, "")
-		if len(vals) == 0 {
-			return "none"
+		show := func(signer string) string {
+			vals := w.corpus.AppendPermanodeAttrValues(nil, blob.MustParse(words[1]), string(attr), time.Time{}, signer)
+			if len(vals) == 0 {
+				return "none"
+			}
+			var out []string
+			for _, v := range vals {
+				out = append(out, hx(v))
+			}
+			return strings.Join(out, ",")
 		}
-		var out []string
-		for _, v := range vals {
-			out = append(out, hx(v))
-		}
-		return strings.Join(out, ",")
+		return show(indextest.KeyID) + " / " + show("")
 	case "q":
 		if len(words) < 4 {
 			return "bad-op"
